@@ -340,10 +340,27 @@ func (f *FederationEngineConfigFactory) dataSourceMetaData(in *nodev1.DataSource
 	}
 
 	for _, keyConfiguration := range in.Keys {
+		var conditions []plan.KeyCondition
+		for _, condition := range keyConfiguration.Conditions {
+			coordinates := make([]plan.FieldCoordinate, 0, len(condition.FieldCoordinatesPath))
+			for _, coordinate := range condition.FieldCoordinatesPath {
+				coordinates = append(coordinates, plan.FieldCoordinate{
+					TypeName:  coordinate.TypeName,
+					FieldName: coordinate.FieldName,
+				})
+			}
+			conditions = append(conditions, plan.KeyCondition{
+				Coordinates: coordinates,
+				FieldPath:   condition.FieldPath,
+			})
+		}
 		out.FederationMetaData.Keys = append(out.FederationMetaData.Keys, plan.FederationFieldConfiguration{
 			TypeName:     keyConfiguration.TypeName,
 			FieldName:    keyConfiguration.FieldName,
 			SelectionSet: keyConfiguration.SelectionSet,
+			// a key the subgraph declared with resolvable: false must not be used for an entity fetch
+			DisableEntityResolver: keyConfiguration.DisableEntityResolver,
+			Conditions:            conditions,
 		})
 	}
 	for _, providesConfiguration := range in.Provides {
